@@ -245,6 +245,8 @@ func TestC20(t *testing.T) {
 					c := genArithCase(rt, "C20", op, d, form, rapid.SampledFrom([]string{"pkg", "method"}).Draw(rt, "via"), "safe", c06LayoutKinds)
 					c = withMode(rt, c, mode, d)
 					c.Engine = eng
+					// UseUnsafe() next to WithReuse: the reuse tensor stays the destination under every engine
+					c.AlsoUnsafe = c.Mode == "reuse" && rapid.IntRange(0, 2).Draw(rt, "alsounsafe") == 0
 					return c
 				})
 			}
